@@ -100,7 +100,7 @@ CB_APIS = {
 
 DEFAULT_WEIGHTS = dict(create=14, iter=5, clone=14, drop=10, conv=14, intoThin=3, cloneArc=6, isUnique=3, getMut=4, getUnique=2,
                        makeMut=4, makeUnique=2, tryUnwrap=2, unwrapOrClone=2, intoInner=1, tryUnique=3, uniqWrite=2,
-                       writeSlot=5, cb=8, malformed=4)
+                       writeSlot=5, cb=8, cmp=5, malformed=4)
 
 
 class Gen:
@@ -320,6 +320,18 @@ class Gen:
                     i = r.choice(todo) if todo and r.random() < 0.9 else r.randrange(n)
                     return "writeSlot %d %d %s" % (s, i, self.item())
                 continue
+            if fam == "cmp":
+                def cls(i):
+                    k, t = slots[i]["kind"], slots[i]["ty"]
+                    if k in ("unionA", "unionB"):
+                        return "union"
+                    if (k == "arc" and t in ("sized", "sizedB", "slice", "hs", "hwl")) or k in ("thin", "offset"):
+                        return k + "." + t
+                    return None
+                cands = [(i, j) for i in occ for j in occ if cls(i) is not None and cls(i) == cls(j)]
+                if cands:
+                    return "cmp %d %d" % r.choice(cands)
+                continue
             if fam == "cb":
                 cands = [(i, a) for i in occ for a, ok in CB_APIS.items() if ok(slots[i]["kind"], slots[i]["ty"])]
                 if cands:
@@ -438,6 +450,36 @@ def tour():
                 if "replace:7" in op and len(cfg) > 1:
                     pre = pre + ["clone 8 7"]
                 hs.append(["reset"] + mk + cfg + pre + [op, "isUnique 0", "drop 1", "isUnique 0", "dropAll"])
+    # comparison / hashing / formatting through every comparable handle type: equal values in another
+    # allocation, smaller, larger, other lengths, the same allocation, the other union variant; with 0..2 co-owners
+    def second(name, v, extra=""):
+        return {
+            "arc.sized": ["create 10 new 50:%d" % v], "arc.boxed": ["create 10 new 50:%d" % v],
+            "arc.sizedB": ["create 10 newB 50:%d" % v],
+            "arc.slice": ["create 10 fromVec 3 50:1,51:%d%s" % (v + 1, extra)],
+            "arc.hs": ["create 10 hsFromVec 59:9 2 50:1,51:%d%s" % (v + 1, extra)],
+            "arc.hwl": ["create 10 hwlFromVec 59:9 %d 2 50:1,51:%d%s" % (2 + (1 if extra else 0), v + 1, extra)],
+            "arc.hwlbad": ["create 10 hwlFromVec 59:9 2 2 50:1,51:%d" % (v + 1)],
+            "thin.hwl": ["create 10 hwlFromVec 59:9 %d 2 50:1,51:%d%s" % (2 + (1 if extra else 0), v + 1, extra), "intoThin 10"],
+            "thin.iter": ["iter 10 thinFromIter 59:9 lens=- hints=- items=50:1,51:2,52:%d%s panic=-" % (v + 2, extra)],
+            "offset.sized": ["create 10 new 50:%d" % v, "conv 10 intoRawOffset"],
+            "unionA.sized": ["create 10 new 50:%d" % v, "conv 10 unionFirst"],
+            "unionB.sizedB": ["create 10 newB 50:%d" % v, "conv 10 unionSecond"],
+        }[name]
+    for name in ("arc.sized", "arc.boxed", "arc.sizedB", "arc.slice", "arc.hs", "arc.hwl", "arc.hwlbad", "thin.hwl", "thin.iter", "offset.sized",
+                 "unionA.sized", "unionB.sizedB"):
+        mk = MAKERS[name]
+        variants = [second(name, 1), second(name, 0), second(name, 2)]
+        if name in ("arc.slice", "arc.hs", "arc.hwl", "thin.hwl", "thin.iter"):
+            variants.append(second(name, 1, ",53:0"))
+        if name == "unionA.sized":
+            variants.append(second("unionB.sizedB", 1))
+        if name == "arc.hwl":
+            variants.append(["create 10 hwlFromVec 59:9 3 2 50:1,51:2"])     # equal header and slice, other recorded length
+        for var in variants:
+            for cfg in ([], ["clone 1 0"], ["clone 1 0", "clone 11 10"]):
+                ops = ["cmp 0 10", "cmp 10 0", "cmp 0 0"] + (["cmp 0 1", "cmp 1 10"] if cfg else [])
+                hs.append(["reset"] + mk + var + cfg + ops + ["drop 0", "cmp 10 10"] + (["cmp 1 10"] if cfg else []) + ["dropAll"])
     # a panic in user code followed by every uniqueness gate: the verdict must still be "sole owner"
     PANICKY = ["makeMut 0 77 1", "makeUnique 0 77 1", "cb 0 rawOffset clone:5,panic", "cb 0 offsetWithArc clone:5,panic",
                "cb 0 borrowWithArc panic", "cb 0 thinWithArcMut getMut:66,panic", "cb 0 thinWithArc clone:5,panic", "unwrapOrClone 1 1"]
@@ -577,6 +619,23 @@ def monitor_history(ops, obs):
                                   k, s["cnt"], owners(post, s["blk"]), s["blk"], " (after a panic in user code)" if st.startswith("panic") else "")))
         for m in re.finditer(r"cnt=([\d|]+);", o["out"]):
             pass  # in-callback counts are compared below with the pre-state
+        # comparison / hashing / formatting through handles: read-only, also when the payload's impl panics
+        if f[0] == "cmp" and st == "ok" and len(f) == 3 and f[1].isdigit() and f[2].isdigit() and int(f[1]) in pre and int(f[2]) in pre:
+            d = dict(x.split("=", 1) for x in o["out"].split(";") if "=" in x)
+            pa, pb = pre[int(f[1])], pre[int(f[2])]
+            np_ = int(d.get("np", "0") or 0)
+            tags_after = ["C04", "C07"] if np_ else ["C04"]
+            if post != pre:
+                fails.append((i, tags_after + ["C14"], "comparing / hashing / formatting s%s and s%s changed the state (%d of the payload's impls panicked): %s -> %s" % (
+                    f[1], f[2], np_, {k: v for k, v in pre.items() if post.get(k) != v}, {k: v for k, v in post.items() if pre.get(k) != v})))
+            if o["ev"]:
+                fails.append((i, tags_after + ["C14"], "comparing / hashing / formatting allocated, freed or destroyed something: %s" % o["ev"]))
+            want = "%s.%s" % (pa["cnt"], pb["cnt"])
+            seen = d.get("incb", "-")
+            if seen != "-" and pa["cnt"].isdigit() and pb["cnt"].isdigit() and any(x != want for x in seen.split("|")):
+                fails.append((i, ["C04"], "while the comparison's borrow was in use the counts read %s, the owning handles are %s" % (seen, want)))
+            if d.get("cons") == "false":
+                fails.append((i, ["C14"], "==, !=, <, <=, >, >=, partial_cmp, cmp and hash are not mutually consistent on s%s, s%s: %s" % (f[1], f[2], o["out"])))
         # per-op property monitors need the source slot before the op
         src = None
         if f[0] in ("isUnique", "getMut", "getUnique", "makeMut", "makeUnique", "tryUnwrap", "unwrapOrClone", "intoInner", "tryUnique",
@@ -855,7 +914,7 @@ def run_correspondence(ctx, histories, harness_exe, model_exe=None, label="hist"
         for k in range(len(ops)):
             a = il[k] if k < len(il) else "<missing: harness process died here>"
             b = ml[k] if k < len(ml) else "<missing>"
-            if a != b:
+            if cmp_canon(a) != b:
                 first = (hi, k, a, b)
                 break
         if first:
@@ -864,6 +923,13 @@ def run_correspondence(ctx, histories, harness_exe, model_exe=None, label="hist"
             res.monitor_fails.append((hi, k, props, msg))
     res.nontrivial = len(seen_distinct)
     return res
+
+
+def cmp_canon(line):
+    """`cmp` lines: the implementation also reports what the payload's trait methods saw while the library's
+    borrow was in use (incb), how many armed operations unwound (np) and how many payload calls were made
+    (calls); those are for the monitors, the model does not predict them"""
+    return re.sub(r";(incb|np|calls)=[^; ]*", "", line) if ";incb=" in line else line
 
 
 def run_one(harness_exe, model_exe, ops):
@@ -881,7 +947,7 @@ def still_bad(harness_exe, model_exe, ops, props=None):
     mf = monitor_history(ops, iobs)
     if props is not None:
         return any(set(p) & set(props) for _, p, _ in mf)
-    return il != ml or bool(mf)
+    return [cmp_canon(x) for x in il] != ml or bool(mf)
 
 
 def shrink(harness_exe, model_exe, ops, props=None, budget=200):
@@ -955,6 +1021,8 @@ def project_zst(line):
         else:
             evs.append(e)
     out = re.sub(r"(ok|val)=[^;]*", r"\1=_", o["out"])
+    if out.startswith("eq="):
+        out = "cmp"          # a ZST has no value to compare by; the state / event part of the line still counts
     slots = " ".join("s%d=%s.%s@b%d+%d/len%d/cnt%s" % (k, s["kind"], s["ty"], s["blk"], s["off"], s["len"], s["cnt"]) for k, s in sorted(o["slots"].items()))
     return "%s out=%s ev=[%s] aux=%d | %s" % (o["status"], out, " ".join(sorted(evs)), o["aux"], slots)
 
